@@ -810,6 +810,20 @@ int32_t tls13FillInPskBinders(ssl_t *ssl,
         hmacAlg = tls13GetPskHmacAlg(psk);
         hmacLen = tls13GetPskHashLen(psk);
 
+        /* Same selection as in tls13WritePreSharedKey: a PSK whose hash no
+           offered suite covers got neither an identity nor a binder slot. */
+        if ((hmacAlg == HMAC_SHA384 && !ssl->tls13CHContainsSha384Suite) ||
+            (hmacAlg != HMAC_SHA384 && !ssl->tls13CHContainsSha256Suite))
+        {
+            psk = psk->next;
+            continue;
+        }
+        if ((p - bindersStart) + 1 + hmacLen > ssl->sec.tls13BindersLen)
+        {
+            /* Never write behind the space reserved for the binders. */
+            return PS_FAILURE;
+        }
+
 # ifdef DEBUG_TLS_1_3_ENCODE_EXTENSIONS
         psTraceBytes("PSK identity", psk->pskId, psk->pskIdLen);
         psTraceBytes("PSK key", psk->pskKey, psk->pskLen);
